@@ -99,7 +99,7 @@ VAL = {"density": 2.5, "D": 1.5, "kf": 0.75, "kr": 0.25, "vol": 8.0, "state": [3
 FOREIGN = "G"      # explicit quantities of mode 2 are written in this system (m, ms, mol) whatever surrounds them
 
 
-def script_dict(level_units, explicit=False, graph=False):
+def script_dict(level_units, explicit=False, graph=False, keywords=False):
     """One physical system (all magnitudes given in SI-coherent 'm, s, mol' numbers VALSI) described with the units
     system U declared at `level` and bare numbers re-scaled to U; other levels inherit. level_units: dict level -> key."""
     def u(level):
@@ -120,6 +120,12 @@ def script_dict(level_units, explicit=False, graph=False):
         return v
 
     def decl(level):
+        if keywords:
+            # the string keywords: "default" names the package default system (whatever encloses the object), "inherit" the enclosing one
+            if u(level) == "A":
+                return {"units": "default"}
+            if not u(level) and level != "script":
+                return {"units": "inherit"}
         return {"units": unitssystem_to_dict(SYS[u(level)])} if u(level) else {}
     SI = {"density": 3.0e20, "D": 2.0e-12, "kf": 0.75, "kr": 4.0e-22, "vol": 8.0e-18, "state": [3.0e-21, 1.0e-21, 4.0e-21, 1.5e-21], "dt": 0.125, "ts": [0.0, 2.0], "tmax": 1.5, "itv": 0.5}
     sp_chain, re_chain = ["species", "network", "system", "script"], ["reaction", "network", "system", "script"]
@@ -179,6 +185,19 @@ def nesting_invariance(lv1, u1, lv2, u2, explicit, graph=0):
     want = {"density": SI["density"], "D_A": SI["D"], "D_B": SI["D"] / 2, "k0": SI["kr"], "k1": SI["kf"], "vol": SI["vol"], "state": SI["state"], "dt": SI["dt"], "ts": SI["ts"],
             "tmax": SI["tmax"], "itv": SI["itv"]}
     return same_content(got, want) and same_content(ref, want)
+
+
+def keyword_invariance(lv1, u1, lv2, graph=0):
+    """the same with the string keywords: level lv2 declares "units": "default" (the package default system, even when an enclosing
+    level declares something else), level lv1 declares system u1, every other nested level says "units": "inherit" explicitly"""
+    d0, SI = script_dict({}, False, bool(graph))
+    lu = {LEVELS[lv1 % 6]: KEYS[u1 % 11]}
+    lu[LEVELS[lv2 % 6]] = "A"
+    d1, _ = script_dict(lu, False, bool(graph), keywords=True)
+    got = physical_content(rdscript_from_dict(d1))
+    want = {"density": SI["density"], "D_A": SI["D"], "D_B": SI["D"] / 2, "k0": SI["kr"], "k1": SI["kf"], "vol": SI["vol"], "state": SI["state"], "dt": SI["dt"], "ts": SI["ts"],
+            "tmax": SI["tmax"], "itv": SI["itv"]}
+    return same_content(got, want)
 
 
 # ---- (4) what reaches the engine, re-expressed in SI, does not depend on the description; outputs are scaled back ----------
@@ -286,6 +305,12 @@ def mixed_array(u1, u2, u3):
     arr = UnitArray(list(vals), tgt)
     want = [2.0 * F(k1, dim), 3.0 * F(k2, dim), 5.0 * F(k3, dim), 7.0 * F(k2, dim), 11.0 * F(k1, dim)]
     ok = all(close(si(arr.get_at(i)), want[i]) for i in range(5))
+    # the same list through the value setter and through set_value with its default arguments
+    arr2 = UnitArray([0.0] * 5, tgt)
+    arr2.value = list(vals)
+    arr3 = UnitArray([0.0] * 5, tgt)
+    arr3.set_value(list(vals))
+    ok = ok and all(close(si(arr2.get_at(i)), want[i]) and close(si(arr3.get_at(i)), want[i]) for i in range(5))
     # the same through a graph whose nodes carry their own units, and through sample times given as quantities
     g = RDGraphSpace(nodes=[N(2.0, 0, SYS[k1]), N(3.0, 0, SYS[k2]), N("7 %s" % str(Units(SYS[k2], UnitsDimensions(*dim))), 0, SYS[k3]), N(5.0, 0, SYS[k3])],
                      edges=[E(0, 1, 2.0, 3.0, SYS[k1]), E(1, 2, 5.0, 7.0, SYS[k2])], units_system=SYS[k3])
